@@ -16,12 +16,12 @@
 (* pointer is crossed and the root is a `:=` local.  Assignment, compound  *)
 (* assignment and ^mut of a place are accepted iff it is mutable.          *)
 (***************************************************************************)
-EXTENDS Naturals, Sequences, FiniteSets, TLC, Json
+EXTENDS Naturals, Sequences, FiniteSets, TLC, Json, MutHeap
 
 CONSTANTS MaxSteps, Emit
 
-VARIABLES root, steps, ty, mut, imm
-vars == <<root, steps, ty, mut, imm>>
+VARIABLES root, steps, ty, mut, imm, loc
+vars == <<root, steps, ty, mut, imm, loc>>
 
 (* pointer types: [to |-> pointee, m |-> mutable] *)
 Ptr == [PmT |-> [to |-> "T", m |-> TRUE],  PiT |-> [to |-> "T", m |-> FALSE],
@@ -65,31 +65,37 @@ Init == /\ root \in DOMAIN Roots
         /\ ty = Roots[root][1]
         /\ mut = Roots[root][2]
         /\ imm = FALSE
+        /\ loc = <<root>>          \* the heap location the place denotes (MutHeap)
 
 (* imm: some immutable pointer has been crossed on the way.  imm /\ mut (an immutable pointer, then
    a ^mut one: `vi.pm.v`, `im^.a`) is reported as "mixed": the data lives behind the ^mut pointer,
    not in what the immutable pointer points at, so the last pointer crossed decides. *)
-StepI(s, t, m, i) == /\ Len(steps) < MaxSteps
-                     /\ steps' = Append(steps, s)
-                     /\ ty' = t
-                     /\ mut' = m
-                     /\ imm' = (imm \/ i)
-                     /\ UNCHANGED root
-Step(s, t, m) == StepI(s, t, m, FALSE)
+StepL(s, t, m, i, l) == /\ Len(steps) < MaxSteps
+                        /\ steps' = Append(steps, s)
+                        /\ ty' = t
+                        /\ mut' = m
+                        /\ imm' = (imm \/ i)
+                        /\ loc' = l
+                        /\ UNCHANGED root
+RECURSIVE Depth(_)
+Depth(t) == IF IsPtr(t) THEN 1 + Depth(Ptr[t].to) ELSE 0
 
 FieldStep == /\ IsStruct(ty)
-             /\ \E f \in DOMAIN Fields[ty] : Step([k |-> "field", f |-> f], Fields[ty][f], mut)
-IndexStep == ty = "A" /\ Step([k |-> "index", f |-> ""], "i32", mut)
+             /\ \E f \in DOMAIN Fields[ty] :
+                    StepL([k |-> "field", f |-> f], Fields[ty][f], mut, FALSE, Append(loc, f))
+IndexStep == ty = "A" /\ StepL([k |-> "index", f |-> ""], "i32", mut, FALSE, Append(loc, "0"))
 (* crossing a pointer: from here on the pointer's own mutability decides *)
-DerefStep == IsPtr(ty) /\ StepI([k |-> "deref", f |-> ""], Ptr[ty].to, Ptr[ty].m, ~Ptr[ty].m)
+DerefStep == IsPtr(ty) /\ StepL([k |-> "deref", f |-> ""], Ptr[ty].to, Ptr[ty].m, ~Ptr[ty].m, Target(loc))
 AutoFieldStep == /\ IsPtr(ty) /\ IsStruct(Base(ty))
                  /\ \E f \in DOMAIN Fields[Base(ty)] :
-                        StepI([k |-> "field", f |-> f], Fields[Base(ty)][f], Ptr[LastOf(ty)].m, AnyImm(ty))
+                        StepL([k |-> "field", f |-> f], Fields[Base(ty)][f], Ptr[LastOf(ty)].m, AnyImm(ty),
+                              Append(TargetN(loc, Depth(ty)), f))
 AutoIndexStep == IsPtr(ty) /\ Base(ty) = "A"
-                 /\ StepI([k |-> "index", f |-> ""], "i32", Ptr[LastOf(ty)].m, AnyImm(ty))
+                 /\ StepL([k |-> "index", f |-> ""], "i32", Ptr[LastOf(ty)].m, AnyImm(ty),
+                          Append(TargetN(loc, Depth(ty)), "0"))
 ParenStep == /\ (IF steps = <<>> THEN TRUE ELSE steps[Len(steps)].k # "paren")
-             /\ Step([k |-> "paren", f |-> ""], ty, mut)
-UnwrapStep == ty = "OT" /\ Step([k |-> "unwrap", f |-> ""], "T", mut)
+             /\ StepL([k |-> "paren", f |-> ""], ty, mut, FALSE, loc)
+UnwrapStep == ty = "OT" /\ StepL([k |-> "unwrap", f |-> ""], "T", mut, FALSE, loc)
 
 Next == FieldStep \/ IndexStep \/ DerefStep \/ AutoFieldStep \/ AutoIndexStep \/ ParenStep \/ UnwrapStep
 Spec == Init /\ [][Next]_vars
@@ -115,5 +121,5 @@ Consistent == mut = MutableByDefinition
 
 Emitted ==
     Emit => PrintT("REPLAY " \o ToJson([root |-> root, steps |-> steps, ty |-> ty, mutable |-> mut,
-                                     mixed |-> (imm /\ mut)]))
+                                     mixed |-> (imm /\ mut), loc |-> loc]))
 ================================================================================
